@@ -4256,7 +4256,9 @@ impl platform::SegmentType for SegmentType {}
 
 impl EpilogueLayoutExt {
     fn gnu_build_id_note_section_size(&self) -> Option<u64> {
-        Some((size_of::<NoteHeader>() + GNU_NOTE_NAME.len() + self.build_id_size?) as u64)
+        // The descriptor of a note is padded to a multiple of 4 bytes.
+        let desc_size = self.build_id_size?.next_multiple_of(4);
+        Some((size_of::<NoteHeader>() + GNU_NOTE_NAME.len() + desc_size) as u64)
     }
 }
 
